@@ -20,11 +20,11 @@ def _corpus():
 
     nxt = b"GET /next HTTP/1.1\r\nHost: n\r\n\r\n"
     add("get-nohdr+next", b"GET / HTTP/1.1\r\n\r\n" + nxt)
-    add("get-hdrs+next", b"GET /a?b=c HTTP/1.1\r\nHost: x\r\nA: b\r\n\r\n" + nxt)
-    add("cl-body+next", b"POST /p HTTP/1.1\r\nContent-Length: 5\r\nA: b\r\n\r\nhe\r\no" + nxt)
+    add("get-hdrs+next", b"GET /a?b=c HTTP/1.1\r\nHost: x\r\nA: b\r\n\r\n" + nxt, cfgs=("default", "small") + CLAMP)
+    add("cl-body+next", b"POST /p HTTP/1.1\r\nContent-Length: 5\r\nA: b\r\n\r\nhe\r\no" + nxt, cfgs=("default", "small") + CLAMP)
     add("cl0+next", b"POST /p HTTP/1.1\r\nContent-Length: 0\r\n\r\n" + nxt)
     add("chunked-ext-trailer+next",
-        b"POST /c HTTP/1.1\r\nTransfer-Encoding: chunked\r\n\r\n3;x=y\r\nabc\r\n1 ;z\r\nd\r\n0\r\nT: 1\r\n\r\n" + nxt)
+        b"POST /c HTTP/1.1\r\nTransfer-Encoding: chunked\r\n\r\n3;x=y\r\nabc\r\n1 ;z\r\nd\r\n0\r\nT: 1\r\n\r\n" + nxt, cfgs=("default", "small") + CLAMP)
     add("chunked-notrailer+next",
         b"POST /c HTTP/1.1\r\nTransfer-Encoding: chunked\r\n\r\n2\r\n\r\n\r\n1\r\n\n\r\n0\r\n\r\n" + nxt)
     add("chunked-a-hex+next",
@@ -47,6 +47,7 @@ def _corpus():
     add("obs-fold", b"GET /f HTTP/1.1\r\nA: b\r\n c\r\n\r\n" + nxt)
     add("cl+te", b"POST /x HTTP/1.1\r\nContent-Length: 3\r\nTransfer-Encoding: chunked\r\n\r\n3\r\nabc\r\n0\r\n\r\n" + nxt)
     add("bad-name", b"GET /n HTTP/1.1\r\nA b: c\r\n\r\n" + nxt)
+    add("underscore-name", b"GET /n HTTP/1.1\r\nA_b: c\r\nD: e\r\n\r\n" + nxt, cfgs=("default", "refuse"))
     add("bad-version", b"GET /n HTTP/1.10\r\n\r\n" + nxt)
     add("bare-lf-head", b"GET /n HTTP/1.1\nA: b\r\n\r\n" + nxt)
     add("second-bad", b"GET /ok HTTP/1.1\r\n\r\nGET /bad HTTP/9.9\r\n\r\n" + nxt)
@@ -71,7 +72,14 @@ CONFIGS = {
     "default": {},
     "small": {"limit_request_line": 32, "limit_request_fields": 3, "limit_request_field_size": 24},
     "proxy": {"proxy_protocol": True, "proxy_allow_ips": "*"},
+    # values at which the limit clamping code paths run
+    "fields0": {"limit_request_fields": 0},
+    "fields-max": {"limit_request_fields": 40000},
+    "line0": {"limit_request_line": 0},
+    "size0": {"limit_request_field_size": 0, "limit_request_fields": 2},
+    "refuse": {"header_map": "refuse"},
 }
+CLAMP = ("fields0", "fields-max", "line0", "size0", "refuse")
 
 
 def _long_corpus():
